@@ -461,6 +461,7 @@ func (w *responseWriter) WriteMsg(m *dns.Msg) error {
 	// modified) version. If nothing survives — every AAAA was
 	// excluded, or there were none to begin with — fall through
 	// to the synthesis path.
+	strippedAll := false
 	if m.Rcode == dns.RcodeSuccess {
 		filtered, hadAAAA, kept, stripped := w.filterUpstreamAAAA(m)
 		if hadAAAA && kept > 0 {
@@ -478,6 +479,7 @@ func (w *responseWriter) WriteMsg(m *dns.Msg) error {
 			}
 			return w.ResponseWriter.WriteMsg(filtered)
 		}
+		strippedAll = stripped > 0
 		m = filtered
 	}
 
@@ -492,6 +494,16 @@ func (w *responseWriter) WriteMsg(m *dns.Msg) error {
 		// A lookup failed or yielded nothing usable; preserve the
 		// original (already AAAA-filtered) answer rather than
 		// papering over it. Reason has already been counted.
+		if strippedAll {
+			// Every AAAA was filtered out and nothing took their
+			// place: what is left is not what the validator vouched
+			// for, exactly as when only some were removed above.
+			// m is filterUpstreamAAAA's private copy here.
+			if m.AuthenticatedData {
+				m.AuthenticatedData = false
+				dnsutil.SetEDE(m, dns.ExtendedErrorCodeForgedAnswer, "DNS64 filtered IPv4-mapped AAAA")
+			}
+		}
 		return w.ResponseWriter.WriteMsg(m)
 	}
 	Synthesised.Inc()
